@@ -55,6 +55,10 @@ class BodyError(Exception):
     pass
 
 
+class BombError(Exception):
+    pass
+
+
 def make_exc(eid, like):
     return FakeClosed(eid) if like else VictimError(eid)
 
@@ -107,6 +111,7 @@ def run_scenario(sc, schedule, post_cancels=()):
     env.counter = None
     env.done_time = None
     env.done_idx = None
+    env.created_idx = 0
 
     def loop():
         return __USIM_STATE__.loop
@@ -129,7 +134,7 @@ def run_scenario(sc, schedule, post_cancels=()):
         d = bool(t.done)
         if d and env.done_time is None:
             env.done_time = now
-        env.samples.append((now, t.status, d, t._result))
+        env.samples.append((now, t.status, d, t._result, env.started))
 
     def reaction_text():
         if env.plog:
@@ -251,9 +256,21 @@ def run_scenario(sc, schedule, post_cancels=()):
         await (time + 1)
         env.marks.append('sibling%d' % i)
 
+    async def bomb():
+        await (time + 1)
+        raise BombError()
+
     async def inner_body(inner, outer):
+        if sc['scope_end'] == 'bomb':
+            # a sibling fails in the very time step in which the victim is created, and is queued
+            # ahead of this body: the scope's own cancellation reaches the body before the victim's
+            # first activation, so the scope closes a task that is still CREATED
+            inner.do(bomb())
+            await instant
+            await (time + 1)
         env.victim = inner.do(payload(), after=sc['after'], volatile=sc['volatile'])
         env.last_time = time.now
+        env.created_idx = env.counter.count - 1
         for i, (pre, times) in enumerate(sc['awaiters']):
             outer.do(awaiter(i, pre, times))
         inner.do(feeder())
@@ -293,7 +310,7 @@ def run_scenario(sc, schedule, post_cancels=()):
             return orig_cancel(self, *token)
         lp = loop_or_none()
         before = snapshot(lp)
-        call = dict(time=lp.time if lp else None, tok=token[0] if token else -1, status=self.status,
+        call = dict(time=lp.time if lp else None, tok=token[0] if token else -1, started=env.started,
                     had_result=self._result is not None, wait_index=env.wait_index)
         orig_cancel(self, *token)
         call['unchanged'] = before == snapshot(lp)
@@ -395,7 +412,11 @@ def monitor(sc, schedule, env):
         return ['victim was never created']
     # (a) status only moves forward; exactly one final status
     prev = None
-    for now, st, d, res in env.samples:
+    for now, st, d, res, started in env.samples:
+        if res is None and st is not (TaskState.RUNNING if started else TaskState.CREATED):
+            bad.append('status is %s at time %r although the task has %s and has no outcome'
+                       % (getattr(st, 'name', st), now, 'been activated' if started else 'not been activated yet'))
+            break
         if st not in RANK:
             bad.append('status %r is not one of the five states' % (st,))
             break
@@ -408,7 +429,7 @@ def monitor(sc, schedule, env):
         bad.append('task ended in status %s' % prev.name)
     # (b) outcome never changes once done; done never reverts
     fixed = None
-    for now, st, d, res in env.samples:
+    for now, st, d, res, started in env.samples:
         if fixed is not None:
             if not d:
                 bad.append('done went back to false at time %r' % now)
@@ -441,7 +462,7 @@ def monitor(sc, schedule, env):
             # (f) cancelling a finished task does nothing
             if not c['unchanged']:
                 bad.append('cancel(%d) of a finished task changed something' % c['tok'])
-        elif c['status'] is TaskState.CREATED:
+        elif not c['started']:
             # (d) cancelled before start: no payload code, TaskCancelled(task, tok)
             if env.first:
                 bad.append('task cancelled before its first activation still ran payload code')
@@ -513,7 +534,7 @@ def gen_scenario(ctx, rng, i):
     on_close = ('pass',) if r < 0.8 else ('raise', rng.randint(20, 29), rng.random() < 0.3) if r < 0.92 \
         else ('return', rng.randint(20, 29))
     r = rng.random()
-    scope_end = 'normal' if r < 0.6 else 'raise' if r < 0.8 else 'until'
+    scope_end = 'normal' if r < 0.55 else 'raise' if r < 0.72 else 'until' if r < 0.9 else 'bomb'
     awaiters = [(rng.choice([0, 0, 1, 2, 4, 8, 12]), rng.choice([1, 1, 2])) for _ in range(rng.randint(1, 3))]
     sc = dict(waits=waits, end=end, on_cancel=on_cancel, on_close=on_close,
               after=rng.choice([None, None, None, 1, 2]), volatile=rng.random() < 0.2,
@@ -524,6 +545,8 @@ def gen_scenario(ctx, rng, i):
 
 
 CORNER_SCENARIOS = [
+    dict(waits=[('delay', 1)], end=('return', 1), on_cancel=[], on_close=('pass',), after=None, volatile=False,
+         awaiters=[(0, 1), (2, 1)], siblings=1, scope_end='bomb', body=2, flag_at=1, queue_gap=1, lock_hold=1, start=0),
     # the scope body fails before the child's first activation: __close__ of a CREATED task
     dict(waits=[('delay', 1)], end=('return', 1), on_cancel=[], on_close=('pass',), after=None, volatile=False,
          awaiters=[(0, 1), (2, 1)], siblings=1, scope_end='raise', body=0, flag_at=1, queue_gap=1, lock_hold=1, start=0),
@@ -559,7 +582,7 @@ def one_case(ctx, sc, schedule, post, store, with_model=True):
     reached = any(not c['had_result'] for c in env.cancel_calls) or any('Close' in op for op, _ in env.events)
     ctx.count(case, nontrivial=reached)
     for c in env.cancel_calls:
-        ctx.bump('cancel:' + ('finished' if c['had_result'] else c['status'].name.lower()))
+        ctx.bump('cancel:' + ('finished' if c['had_result'] else 'running' if c['started'] else 'created'))
     ctx.bump('cancels_per_case:%d' % len(env.cancel_calls))
     for op, _ in env.events:
         ctx.bump('event:' + op.strip('()').split()[0])
@@ -583,9 +606,10 @@ def schedules_for(ctx, rng, sc, per_scenario, full):
     n = dry.counter.count
     out = []
     out.append(([], ()))
-    ks = list(range(1, n))
+    first = dry.created_idx + 1
+    ks = list(range(first, n))
     if not full and len(ks) > per_scenario - 6:
-        must = [1, 2]
+        must = [first, first + 1]
         last = n if dry.done_idx is None else dry.done_idx + 1
         early = [k for k in ks if k not in must and k <= last]
         late = [k for k in ks if k not in must and k > last]
@@ -598,7 +622,7 @@ def schedules_for(ctx, rng, sc, per_scenario, full):
         tok += 1
     for _ in range(4 if not full else 8):
         m = rng.randint(2, 3)
-        pts = sorted(rng.choice(range(1, max(2, n))) for _ in range(m))
+        pts = sorted(rng.choice(range(first, max(first + 1, n))) for _ in range(m))
         if rng.random() < 0.4:
             pts[1] = pts[0]           # twice in a row at the same boundary
         out.append(([(k, 200 + j) for j, k in enumerate(pts)], (300,) if rng.random() < 0.5 else ()))
